@@ -19,3 +19,8 @@ def r1(ctx):
         if r.coverage_zero():
             raise RuntimeError("vacuous %s run: %s" % (m, r.coverage_zero()))
         ctx.add_tlc(r, "R1")
+    # the controller model and the user's view agree: canonical services change / return exactly what the view expects
+    r = tlc.must_pass(tlc.run("LogixMemModel", "LogixMemModel.cfg", workers=8, timeout=900), "LogixMemModel")
+    if r.distinct < 100:
+        raise RuntimeError("LogixMemModel explored only %d states" % r.distinct)
+    ctx.add_tlc(r, "R1")
